@@ -156,6 +156,161 @@ class FnTranslator:
         return ".unknown"
 
 
+# ----------------------------------------------------------------------------- the two one-value cells
+
+class CellFnTranslator:
+    """functions over `<cell>.value` for a one-value `threading.local()` cell (Model/CellDsl.lean)"""
+
+    def __init__(self, fn, cell, helper_index, consts, notes):
+        self.fn, self.cell, self.helpers, self.consts, self.notes = fn, cell, helper_index, consts, notes
+        self.locals = {}
+        self.params = [a.arg for a in fn.args.args]
+
+    def loc(self, name):
+        return self.locals.setdefault(name, len(self.locals))
+
+    def _is_attr(self, e):
+        return isinstance(e, ast.Attribute) and e.attr == "value" and isinstance(e.value, ast.Name) and e.value.id == self.cell
+
+    def _fstring_text(self, e):
+        """the text of an f-string with module-level string constants written out and the parameters as {name}"""
+        if not isinstance(e, ast.JoinedStr):
+            return None
+        out = ""
+        for v in e.values:
+            if isinstance(v, ast.Constant) and isinstance(v.value, str):
+                out += v.value
+            elif isinstance(v, ast.FormattedValue) and isinstance(v.value, ast.Name) and v.conversion == -1 and v.format_spec is None:
+                if v.value.id in self.params:
+                    out += "{" + str(self.params.index(v.value.id)) + "}"
+                elif v.value.id in self.consts and v.value.id not in self.locals:
+                    out += self.consts[v.value.id]
+                else:
+                    return None
+            else:
+                return None
+        return out
+
+    def expr(self, e):
+        if isinstance(e, ast.Constant):
+            if e.value is None:
+                return ".noneLit"
+            if e.value is True or e.value is False:
+                return f"(.boolLit {'true' if e.value else 'false'})"
+        if isinstance(e, ast.Name) and e.id in self.locals:
+            return f"(.loc {self.locals[e.id]})"
+        if self._is_attr(e):
+            return ".attrVal"
+        if isinstance(e, ast.Call) and not e.keywords:
+            f = _u(e.func)
+            if f == "getattr" and len(e.args) == 3 and _u(e.args[0]) == self.cell and isinstance(e.args[1], ast.Constant) and e.args[1].value == "value":
+                return f"(.getattrVal {self.expr(e.args[2])})"
+            if f == "hasattr" and len(e.args) == 2 and _u(e.args[0]) == self.cell and isinstance(e.args[1], ast.Constant) and e.args[1].value == "value":
+                return ".hasattrVal"
+            if isinstance(e.func, ast.Name) and e.func.id in self.helpers and not e.args:
+                return f"(.call {self.helpers[e.func.id]})"
+        if isinstance(e, ast.Compare) and len(e.ops) == 1 and isinstance(e.comparators[0], ast.Constant) and e.comparators[0].value is None \
+                and isinstance(e.ops[0], (ast.Is, ast.IsNot)):
+            if self.fn.name == "set_treepath_memo" and isinstance(e.left, ast.Name) and len(self.params) == 2 and e.left.id == self.params[0] and e.left.id not in self.locals:
+                inner = ".indexIsNone"
+            else:
+                inner = f"(.isNone {self.expr(e.left)})"
+            return inner if isinstance(e.ops[0], ast.Is) else f"(.not {inner})"
+        if isinstance(e, ast.UnaryOp) and isinstance(e.op, ast.Not):
+            return f"(.not {self.expr(e.operand)})"
+        if isinstance(e, ast.BoolOp):
+            parts = [self.expr(v) for v in e.values]
+            op = ".and" if isinstance(e.op, ast.And) else ".or"
+            r = parts[-1]
+            for x in reversed(parts[:-1]):
+                r = f"({op} {x} {r})"
+            return r
+        if self.fn.name == "set_treepath_memo" and len(self.params) == 2:
+            t = self._fstring_text(e)
+            # the label must tell leaves apart (index) and structures apart (name): exactly the two documented texts
+            if t == "(Leaf {0} in structure {1}) ":
+                return ".labelLeaf"
+            if t == "~~delete~~({1}) ":
+                return ".labelHidden"
+        self.notes.append(f"{self.fn.name}: expression: " + _u(e)[:80])
+        return ".unknown"
+
+    def seq(self, stmts):
+        out = [x for x in (self.stmt(s) for s in _strip(stmts)) if x != ".skip"] or [".skip"]
+        r = out[-1]
+        for x in reversed(out[:-1]):
+            r = f"(.seq {x} {r})"
+        return r
+
+    def stmt(self, st):
+        if isinstance(st, ast.AnnAssign) and st.value is not None and isinstance(st.target, ast.Name):
+            st = ast.Assign(targets=[st.target], value=st.value)
+        if isinstance(st, ast.If):
+            return f"(.ite {self.expr(st.test)} {self.seq(st.body)} {self.seq(st.orelse)})"
+        if isinstance(st, ast.Return):
+            if st.value is None or (isinstance(st.value, ast.Constant) and st.value.value is None):
+                return ".retNone"
+            return f"(.ret {self.expr(st.value)})"
+        if isinstance(st, ast.Raise) and st.cause is None and st.exc is not None and ((isinstance(st.exc, ast.Call) and _u(st.exc.func) == "AnnotationError") or _u(st.exc) == "AnnotationError"):
+            return ".raiseAnn"
+        if isinstance(st, ast.Try) and len(st.handlers) == 1 and not st.orelse and not st.finalbody and st.handlers[0].name is None \
+                and st.handlers[0].type is not None and _u(st.handlers[0].type) == "AttributeError":
+            return f"(.tryAttr {self.seq(st.body)} {self.seq(st.handlers[0].body)})"
+        if isinstance(st, ast.Assign) and len(st.targets) == 1:
+            t = st.targets[0]
+            if self._is_attr(t):
+                return f"(.setAttr {self.expr(st.value)})"
+            if isinstance(t, ast.Name):
+                e = self.expr(st.value)
+                return f"(.assign {self.loc(t.id)} {e})"
+        self.notes.append(f"{self.fn.name}: statement: " + _u(st)[:80].replace("\n", " "))
+        return ".unknown"
+
+
+def translate_cell(tree, fns, cell, public, want_params, notes):
+    import extract
+
+    consts = {k: v.value for k, v in extract.module_constants(tree).items() if isinstance(v.value, str)}
+    binds = [n for n in ast.walk(tree) if isinstance(n, (ast.Assign, ast.AnnAssign, ast.AugAssign)) and any(isinstance(t, ast.Name) and t.id == cell
+             for t in (n.targets if isinstance(n, ast.Assign) else [n.target]))]
+    ok = len(binds) == 1 and binds[0] in tree.body and isinstance(binds[0], ast.Assign) and _u(binds[0].value) == "threading.local()" \
+        and not any(isinstance(n, ast.Global) and cell in n.names for n in ast.walk(tree)) \
+        and any(isinstance(n, ast.Import) and any(a.name == "threading" and a.asname is None for a in n.names) for n in tree.body)
+    if not ok:
+        notes.append(f"`{cell} = threading.local()` not found exactly once at module level")
+    helpers = []
+
+    def reach(fn):
+        for c in ast.walk(fn):
+            if isinstance(c, ast.Call) and isinstance(c.func, ast.Name) and c.func.id in fns and c.func.id not in helpers and c.func.id not in public:
+                h = fns[c.func.id]
+                if not h.args.args and not h.args.vararg and not h.args.kwarg and not h.args.kwonlyargs and not h.decorator_list:
+                    helpers.append(c.func.id)
+                    reach(h)
+
+    for name in public:
+        if name in fns:
+            reach(fns[name])
+    index = {h: i for i, h in enumerate(helpers)}
+    touched_by = {f.name for f in fns.values() if any(isinstance(n, ast.Name) and n.id == cell for n in ast.walk(f))}
+    extra = touched_by - set(public) - set(helpers)
+    at_module = any(isinstance(n, ast.Name) and n.id == cell for st in tree.body if not isinstance(st, ast.FunctionDef) and st is not (binds[0] if binds else None) for n in ast.walk(st))
+    if extra or at_module:
+        notes.append(f"{cell} is also touched by: " + (", ".join(sorted(extra)) or "module-level code"))
+        ok = False
+    codes = {}
+    for name in helpers + public:
+        fn = fns.get(name)
+        if fn is None or not ok or fn.decorator_list or fn.args.vararg or fn.args.kwarg or fn.args.kwonlyargs \
+                or (name in public and len(fn.args.args) != want_params[name]):
+            if fn is None or name in public:
+                notes.append(f"{name}: not found / unexpected parameters")
+            codes[name] = ".unknown"
+            continue
+        codes[name] = CellFnTranslator(fn, cell, index, consts, notes).seq(fn.body)
+    return helpers, codes
+
+
 def run():
     with open(os.path.join(REPO, "jaxtyping", "_storage.py")) as fh:
         tree = ast.parse(fh.read())
@@ -202,10 +357,17 @@ def run():
             codes[name] = ".unknown"
             continue
         codes[name] = FnTranslator(fn, index, notes).seq(fn.body)
+    tp_helpers, tp = translate_cell(tree, fns, "_treepath_storage", ["clear_treepath_memo", "set_treepath_memo", "get_treepath_memo"],
+                                    {"clear_treepath_memo": 0, "set_treepath_memo": 2, "get_treepath_memo": 0}, notes)
+    fl_helpers, fl = translate_cell(tree, fns, "_treeflatten_storage", ["clear_treeflatten_memo", "set_treeflatten_memo", "get_treeflatten_memo"],
+                                    {"clear_treeflatten_memo": 0, "set_treeflatten_memo": 0, "get_treeflatten_memo": 0}, notes)
     note = ("(" + "; ".join(notes)[:400].replace("-/", "- /") + ")") if notes else ""
     funs = ",\n  ".join(f"/- {h} -/ {codes[h]}" for h in helpers)
+    tp_funs = ",\n  ".join(f"/- {h} -/ {tp[h]}" for h in tp_helpers)
+    fl_funs = ",\n  ".join(f"/- {h} -/ {fl[h]}" for h in fl_helpers)
     txt = f"""/- GENERATED by harness/translate_storage.py from {REPO}/jaxtyping/_storage.py on every run. Do not edit. -/
 import JaxVerif.Model.StorageDsl
+import JaxVerif.Model.CellDsl
 
 namespace JV.Generated
 
@@ -222,10 +384,30 @@ def pushShapeMemoCode : SStmt :=
 def popShapeMemoCode : SStmt :=
   {codes['pop_shape_memo']}
 
+/-- `_treepath_storage`: helpers, then `clear_treepath_memo()`, `set_treepath_memo(index, structure)`, `get_treepath_memo()` -/
+def treepathFuns : List KStmt := [
+  {tp_funs}]
+def clearTreepathCode : KStmt :=
+  {tp['clear_treepath_memo']}
+def setTreepathCode : KStmt :=
+  {tp['set_treepath_memo']}
+def getTreepathCode : KStmt :=
+  {tp['get_treepath_memo']}
+
+/-- `_treeflatten_storage`: helpers, then `clear_` / `set_` / `get_treeflatten_memo()` -/
+def treeflattenFuns : List KStmt := [
+  {fl_funs}]
+def clearTreeflattenCode : KStmt :=
+  {fl['clear_treeflatten_memo']}
+def setTreeflattenCode : KStmt :=
+  {fl['set_treeflatten_memo']}
+def getTreeflattenCode : KStmt :=
+  {fl['get_treeflatten_memo']}
+
 end JV.Generated
 """
     write_if_changed(os.path.join(GEN, "StorageCode.lean"), txt)
-    return {"storage_notes": notes, "helpers": helpers, "codes": codes}
+    return {"storage_notes": notes, "helpers": helpers, "codes": codes, "treepath": tp, "treeflatten": fl}
 
 
 if __name__ == "__main__":
